@@ -120,7 +120,7 @@ func c20(c *core.Ctx) {
 		c.Check("rcvBlockLoop:insertBlock-present", "must-call", len(ins) >= 1, loop.Pos(), "rcvBlockLoop inserts received blocks")
 		for _, i := range ins {
 			ok, why := core.HeededBefore(pt, core.IsFalse, i)
-			c.Check("rcvBlockLoop:HasBlock(parent)≺insertBlock", "guarded-action", ok && i.Common().Args[len(i.Common().Args)-1] == tested, i.Pos(), "a received block is inserted only when its parent is known, and it is the tested block: %s", orOK(why))
+			c.Check("rcvBlockLoop:HasBlock(parent)≺insertBlock", "guarded-action", ok && argIs(i, tested), i.Pos(), "a received block is inserted only when its parent is known, and it is the tested block: %s", orOK(why))
 		}
 		c.Check("rcvBlockLoop:blockCache.Add-present", "must-call", len(adds) == 1, loop.Pos(), "rcvBlockLoop caches blocks whose parent is unknown (%d Add calls)", len(adds))
 		if len(adds) != 1 {
@@ -207,7 +207,7 @@ func c20(c *core.Ctx) {
 						continue
 					}
 					for _, i := range core.CallsIn(cb, insert) {
-						if k, _ := core.HeededBefore(g, core.IsFalse, i); k && i.Common().Args[len(i.Common().Args)-1] == cb.Params[0] {
+						if k, _ := core.HeededBefore(g, core.IsFalse, i); k && argIs(i, cb.Params[0]) {
 							okCb = true
 						}
 					}
@@ -283,6 +283,14 @@ func c20(c *core.Ctx) {
 		for _, t := range core.TestsOf(hb[0].Value(), core.IsFalse) {
 			if core.CanReach(t.Fail, ps[0].Block()) && !core.CanReach(t.OK, ps[0].Block()) && t.If.Block().Dominates(ps[0].Block()) {
 				ok = true
+				// ... on every path: no return is reachable from the unknown-block edge around the Push (a confirm that arrives before its
+				// block and is dropped is never asked for again once the block came in)
+				r := core.ReachCutAvoid(t.Fail, nil, map[*ssa.BasicBlock]bool{ps[0].Block(): true})
+				for _, ret := range core.Returns(fn) {
+					if ret.Block() != fn.Recover && r[ret.Block()] {
+						ok = false
+					}
+				}
 			}
 		}
 		pa := ps[0].Common().Args
@@ -299,6 +307,44 @@ func c20(c *core.Ctx) {
 	})
 
 	// -----------------------------------------------------------------------------------------
+	c.Clause("C20.5", "nothing a peer sends puts a block on the blacklist: the set of refused block hashes is filled from the operator's file at start-up and grows only by descendants of listed blocks (IsBlackBlock adds a block whose parent is listed); an insert error is not a verdict on the block (a known block is refused too), so it never lists one")
+	c.Run("blacklist-writers", func() {
+		set := c.Method("network.HashSet", "set")
+		sites := closedCallers(c, "HashSet.set", []string{"(*network.invalidBlockCache).IsBlackBlock"}, set)
+		c.Floor("blacklist/set-sites", len(sites), 1)
+		isExist := c.Method("network.HashSet", "isExist")
+		ibb := c.Fn("network.invalidBlockCache.IsBlackBlock")
+		for _, st := range core.CallsIn(ibb, set) {
+			ok := false
+			for _, g := range core.CallsIn(ibb, isExist) {
+				a := g.Common().Args
+				if len(a) == 2 && a[1] == ssa.Value(ibb.Params[2]) {
+					if h, _ := core.HeededBefore(g, core.IsFalse, st); h {
+						ok = true
+					}
+				}
+			}
+			c.Check("IsBlackBlock:set-only-under-listed-parent", "guarded-action", ok, st.Pos(), "IsBlackBlock lists a block only after it found the block's parent in the list")
+		}
+		// the map itself is written by nobody else
+		cacheF := c.FieldVar("network.HashSet", "cache")
+		n := 0
+		for _, fn := range c.SrcFuncs {
+			if isTestHelper(c, fn) || core.RelPkg(fn) != "network" {
+				continue
+			}
+			for _, b := range fn.Blocks {
+				for _, in := range b.Instrs {
+					if mu, ok := in.(*ssa.MapUpdate); ok && core.SliceHasField(core.SliceShallow(mu.Map), cacheF) {
+						n++
+						c.Check("HashSet.cache-update@"+shortFn(fn), "who-may-write", fn == c.Fn("network.HashSet.set"), mu.Pos(), "HashSet.cache is updated in %s, outside HashSet.set", shortFn(fn))
+					}
+				}
+			}
+		}
+		c.Floor("blacklist/cache-updates", n, 1)
+	})
+
 	c.Clause("C20.4", "in handleTxsMsg a transaction reaches AddTx only after VerifyTxBody accepted it and ExistTx denied it, and the transaction added is the one verified (each goroutine owns its variable)")
 	c.Run("handleTxsMsg", func() {
 		fn := c.Fn(pmSpec + ".handleTxsMsg")
@@ -397,4 +443,14 @@ func sameLoad(a, b ssa.Value) bool {
 	la, oka := a.(*ssa.UnOp)
 	lb, okb := b.(*ssa.UnOp)
 	return oka && okb && la.Op == token.MUL && lb.Op == token.MUL && la.X == lb.X
+}
+
+// argIs: one of the call's arguments is v.
+func argIs(ci ssa.CallInstruction, v ssa.Value) bool {
+	for _, a := range ci.Common().Args {
+		if a == v {
+			return v != nil
+		}
+	}
+	return false
 }
